@@ -60,8 +60,8 @@ def make_config(rng):
     if lk == "output_levels":
         k = int(rng.integers(1, min(4, nz) + 1))
         dom["output_levels"] = sorted(int(i) for i in rng.choice(nz + 1, size=k, replace=False))
-        if rng.random() < 0.3:
-            dom["output_levels"] = dom["output_levels"][::-1]
+        if rng.random() < 0.5:
+            dom["output_levels"] = [int(i) for i in rng.permutation(dom["output_levels"])]
     elif lk == "full_output":
         dom["full_output"] = True
     fk = str(rng.choice(["ustar", "z0", "both"]))
@@ -109,8 +109,13 @@ def run_case(case):
     raw, desc = make_config(rng)
     viol = []
     counters = {"single_runs": 0, "spy_wind": 0, "spy_profiles": 0, "spy_source": 0, "spy_solver": 0, "yaml_roundtrips": 0, "bitwise_equal_fields": 0}
+    import copy
+
+    raw_given = raw
+    raw = copy.deepcopy(raw_given)  # the oracle works from the numbers as configured, whatever the run does to its own objects
     try:
-        cfg = parse_config_dict(raw)
+        cfg = parse_config_dict(raw_given)
+        cfg_before = copy.deepcopy(cfg)
     except Exception as e:  # noqa
         return {"harness_error": f"generated configuration rejected: {e!r} {raw}"}
     # YAML == dict
@@ -198,6 +203,8 @@ def run_case(case):
     finally:
         for n, fn in real.items():
             setattr(iface, n, fn)
+    if cfg != cfg_before:
+        viol.append({"what": "run_mutates_the_configuration", "before": repr(cfg_before.domain)[:300], "after": repr(cfg.domain)[:300], "options": desc})
     inc = counters["spy_solver"] == 0
     b = {f"{k}:{v}": 1 for k, v in desc.items()}
     b["user_flux" if user_flux is not None else "ideal_source"] = 1
